@@ -683,6 +683,12 @@ func (g *fgen) families() {
 	g.w("func GenFieldBoth_%d() (string, int, error) {\n\tlabel := GBox_%d[string]{}\n\tcount := GBox_%d[int]{}\n\tfail := GBox_%d[error]{}\n\tlabel.V = \"l\"\n\tfail.V = io.EOF\n\tcount.V = 2\n\treturn label.V, count.V, fail.V\n}\n", s, s, s, s)
 	g.w("func GenFieldErr_%d() error {\n\tfail := GBox_%d[error]{}\n\tn := GBox_%d[int]{}\n\tfail.V = errors.New(\"e\")\n\tn.V = 7\n\t_ = n\n\treturn fail.V\n}\n", s, s, s)
 
+	// compound assignments: the operand on the right is not the value of the variable (n <<= s with an unsigned s leaves
+	// n an int; x += 1.5 leaves a float64 x a float64; s += "x" a string)
+	g.w("func ShiftAsg_%d(s uint) int {\n\tn := 1\n\tn <<= s\n\treturn n\n}\n", s)
+	g.w("func AddAsg_%d(d time.Duration) (time.Duration, string) {\n\ttotal := time.Second\n\tname := \"a\"\n\ttotal += d * 2\n\tname += \"b\"\n\treturn total, name\n}\n", s)
+	g.w("func IncDec_%d() (int, float64) {\n\ti := 0\n\tf := 1.5\n\ti++\n\tf--\n\treturn i, f\n}\n", s)
+
 	// calls into the second package, interfaces, forwarding
 	g.w("func Fwd_%d() (int, error) {\n\treturn rp.Lit()\n}\n", s)
 	g.w("func FwdAsg_%d() (int, error) {\n\tv, err := rp.Lit()\n\tif err != nil {\n\t\treturn 0, rp.Wrap(err)\n\t}\n\treturn v + 1, nil\n}\n", s)
@@ -768,8 +774,8 @@ func (p *prop) runGenerated(c core.Case, w *core.Worker, res *core.Result) {
 			return
 		}
 		g := &fgen{r: r, b: &strings.Builder{}}
-		g.w("package rq\n\nimport (\n\t\"errors\"\n\t\"fmt\"\n\t\"io\"\n\n\t\"example.com/c14/rp\"\n)\n")
-		g.w("var _ = fmt.Sprint\nvar _ = io.EOF\n\ntype T struct {\n\tN   int\n\tErr error\n}\n\nvar ErrSentinel = errors.New(\"sentinel\")\n")
+		g.w("package rq\n\nimport (\n\t\"errors\"\n\t\"fmt\"\n\t\"io\"\n\t\"time\"\n\n\t\"example.com/c14/rp\"\n)\n")
+		g.w("var _ = fmt.Sprint\nvar _ = io.EOF\nvar _ time.Duration\n\ntype T struct {\n\tN   int\n\tErr error\n}\n\nvar ErrSentinel = errors.New(\"sentinel\")\n")
 		for j := 0; j < 12; j++ {
 			g.literalOnly()
 		}
